@@ -24,6 +24,7 @@ from ._utility import public_module
 from ._core import (
     ScopedIter,
     awaitify as _awaitify,
+    close_all as _close_all,
     Sentinel,
     borrow as _borrow,
 )
@@ -199,9 +200,7 @@ class chain(AsyncIterator[T]):
         return self._iterator.__anext__()
 
     async def aclose(self) -> None:
-        for iterable in self._owned_iterators:
-            await iterable.aclose()
-        await self._iterator.aclose()
+        await _close_all((*self._owned_iterators, self._iterator))
 
 
 async def compress(
@@ -528,8 +527,7 @@ class Tee(Generic[T]):
         await self.aclose()
 
     async def aclose(self) -> None:
-        for child in self._children:
-            await child.aclose()
+        await _close_all(self._children)
 
 
 tee = Tee
@@ -595,10 +593,7 @@ async def zip_longest(
                     del value
             yield tuple(values)
     finally:
-        await fill_iter.aclose()  # type: ignore
-        for iterator in async_iters:
-            if hasattr(iterator, "aclose"):
-                await iterator.aclose()  # type: ignore
+        await _close_all((fill_iter, *async_iters))
 
 
 async def identity(x: T) -> T:
